@@ -1053,7 +1053,21 @@ theorem wts2_same {B a j : Nat} {L : List Nat} (hge : ∀ y ∈ L, a ≤ y) (hfu
   · simp; omega
   · exact absurd rfl hne
 
-set_option maxHeartbeats 1000000 in
+/-- the kinds of items that are at most `B/2` -/
+theorem Role2.small {B a : Nat} {e : DItem} (h : Role2 B a e) (h4 : 4 * a ≤ B) (hle : 2 * e.val ≤ B) :
+    (e.wt = 42 ∧ B + 4 * a < 4 * e.val) ∨
+    (e.wt = 36 ∧ B < 3 * e.val ∧ 3 * B < 4 * e.val + 8 * a) ∨
+    (e.wt ≤ 30 ∧ B < 3 * e.val) ∨ (e.wt ≤ 24 ∧ B < 4 * e.val) ∨ (e.wt ≤ 18 ∧ a ≤ e.val) := by
+  unfold Role2 at h
+  omega
+
+/-- a coarser list, used for the items that exceed `B/2` -/
+theorem Role2.big {B a : Nat} {e : DItem} (h : Role2 B a e) :
+    (e.wt = 72 ∧ B < e.val + a) ∨ (e.wt = 54 ∧ 3 * B < 4 * e.val + 4 * a) ∨
+    (e.wt = 48 ∧ 2 * B < 3 * e.val + 3 * a) ∨ e.wt ≤ 42 := by
+  unfold Role2 at h
+  omega
+
 /-- every bin of the optimum weighs at most `90/72 = 5/4` -/
 theorem opt_bin2 {B a : Nat} (h5 : B < 5 * a) (h4 : 4 * a ≤ B) (T : List DItem) (hnd : T.Nodup)
     (h1 : ∀ e ∈ T, Role2 B a e)
@@ -1074,20 +1088,51 @@ theorem opt_bin2 {B a : Nat} (h5 : B < 5 * a) (h4 : 4 * a ≤ B) (T : List DItem
   | [e1, e2], hnd, h1, h2, hs, _ =>
     have f1 := h1 e1 (by simp)
     have f2 := h1 e2 (by simp)
-    unfold Role2 at f1 f2
     simp only [binSum, List.map_cons, List.map_nil, sumL] at hs ⊢
-    omega
-  | [e1, e2, e3], hnd, h1, h2, hs, _ =>
+    by_cases b1 : 2 * e1.val ≤ B <;> by_cases b2 : 2 * e2.val ≤ B
+    · have g1 := f1.small h4 b1
+      have g2 := f2.small h4 b2
+      omega
+    · have g1 := f1.small h4 b1
+      have g2 := f2.big
+      omega
+    · have g1 := f1.big
+      have g2 := f2.small h4 b2
+      omega
+    · omega
+  | [e1, e2, e3], hnd, h1, h2, hs, hav =>
     have f1 := h1 e1 (by simp)
     have f2 := h1 e2 (by simp)
     have f3 := h1 e3 (by simp)
-    unfold Role2 at f1 f2 f3
+    have a1 := hav e1 (by simp)
+    have a2 := hav e2 (by simp)
+    have a3 := hav e3 (by simp)
     simp only [List.nodup_cons, List.mem_cons, List.not_mem_nil, or_false, not_or] at hnd
     have g12 := h2 e1 (by simp) e2 (by simp) hnd.1.1
     have g13 := h2 e1 (by simp) e3 (by simp) hnd.1.2
     have g23 := h2 e2 (by simp) e3 (by simp) hnd.2.1
     simp only [binSum, List.map_cons, List.map_nil, sumL] at hs ⊢
-    omega
+    by_cases b1 : 2 * e1.val ≤ B <;> by_cases b2 : 2 * e2.val ≤ B <;> by_cases b3 : 2 * e3.val ≤ B
+    · have k1 := f1.small h4 b1
+      have k2 := f2.small h4 b2
+      have k3 := f3.small h4 b3
+      omega
+    · have k1 := f1.small h4 b1
+      have k2 := f2.small h4 b2
+      have k3 := f3.big
+      omega
+    · have k1 := f1.small h4 b1
+      have k2 := f2.big
+      have k3 := f3.small h4 b3
+      omega
+    · omega
+    · have k1 := f1.big
+      have k2 := f2.small h4 b2
+      have k3 := f3.small h4 b3
+      omega
+    · omega
+    · omega
+    · omega
   | [e1, e2, e3, e4], hnd, h1, h2, hs, hav =>
     have a1 := hav e1 (by simp)
     have a2 := hav e2 (by simp)
@@ -1095,17 +1140,10 @@ theorem opt_bin2 {B a : Nat} (h5 : B < 5 * a) (h4 : 4 * a ≤ B) (T : List DItem
     have a4 := hav e4 (by simp)
     simp only [binSum, List.map_cons, List.map_nil, sumL] at hs ⊢
     -- no item exceeds `B/2`, so only five kinds of items remain
-    have red : ∀ e : DItem, Role2 B a e → 2 * e.val ≤ B →
-        (e.wt = 42 ∧ B + 4 * a < 4 * e.val) ∨
-        (e.wt = 36 ∧ B < 3 * e.val ∧ 3 * B < 4 * e.val + 8 * a) ∨
-        (e.wt ≤ 30 ∧ B < 3 * e.val) ∨ (e.wt ≤ 24 ∧ B < 4 * e.val) ∨ (e.wt ≤ 18 ∧ a ≤ e.val) := by
-      intro e h hle
-      unfold Role2 at h
-      omega
-    have f1 := red e1 (h1 e1 (by simp)) (by omega)
-    have f2 := red e2 (h1 e2 (by simp)) (by omega)
-    have f3 := red e3 (h1 e3 (by simp)) (by omega)
-    have f4 := red e4 (h1 e4 (by simp)) (by omega)
+    have f1 := (h1 e1 (by simp)).small h4 (by omega)
+    have f2 := (h1 e2 (by simp)).small h4 (by omega)
+    have f3 := (h1 e3 (by simp)).small h4 (by omega)
+    have f4 := (h1 e4 (by simp)).small h4 (by omega)
     omega
   | e1 :: e2 :: e3 :: e4 :: e5 :: r, _, _, _, hs, hav =>
     have a1 := hav e1 (by simp)
